@@ -387,8 +387,20 @@ func mkService(f []string) *corev1.Service {
 	if has(flags, "drain") {
 		s.Labels = map[string]string{"istio.io/persistent-session": "c"}
 	}
+	ann := map[string]string{}
 	if has(flags, "td") {
-		s.Annotations = map[string]string{"networking.istio.io/traffic-distribution": "PreferClose"}
+		ann["networking.istio.io/traffic-distribution"] = "PreferClose"
+	}
+	if has(flags, "x") {
+		// exported to nobody: endpointslice.go serviceNeedsPush
+		ann["networking.istio.io/exportTo"] = "~"
+	}
+	if has(flags, "sa") {
+		// ConvertService: Service.ServiceAccounts from the annotation
+		ann["alpha.istio.io/kubernetes-serviceaccounts"] = "acct1,acct2"
+	}
+	if len(ann) > 0 {
+		s.Annotations = ann
 	}
 	return s
 }
@@ -405,11 +417,16 @@ func cond(c byte) *bool {
 	return nil
 }
 
-// slice <ns> <name> <svc> <addrtype> <ports> <eps>    ep = addr+addr/r/s/t/targetNs:targetName|-
+// slice <ns> <name> <svc> <addrtype> <ports> <eps>    ep = addr+addr/r/s/t/targetNs:targetName|!targetNs:targetName|-
+// svc "M:<name>": the slice also carries the MCS service-name label (the controller ignores such slices);
+// port name "nil" / port 0: nil pointers; target "!ns:name": a targetRef whose Kind is not Pod.
 func mkSlice(f []string) *discoveryv1.EndpointSlice {
 	ns, name, svc := wire.Dec(f[1]), wire.Dec(f[2]), wire.Dec(f[3])
 	s := &discoveryv1.EndpointSlice{ObjectMeta: metav1.ObjectMeta{Name: name, Namespace: ns}}
-	if svc != "" {
+	if strings.HasPrefix(svc, "M:") {
+		svc = svc[2:]
+		s.Labels = map[string]string{discoveryv1.LabelServiceName: svc, "multicluster.kubernetes.io/service-name": svc}
+	} else if svc != "" {
 		s.Labels = map[string]string{discoveryv1.LabelServiceName: svc}
 	}
 	s.AddressType = discoveryv1.AddressTypeIPv4
@@ -419,7 +436,14 @@ func mkSlice(f []string) *discoveryv1.EndpointSlice {
 	names, ports := namePort(f[5])
 	for i := range names {
 		n, p, pr := names[i], ports[i], corev1.ProtocolTCP
-		s.Ports = append(s.Ports, discoveryv1.EndpointPort{Name: &n, Port: &p, Protocol: &pr})
+		ep := discoveryv1.EndpointPort{Name: &n, Port: &p, Protocol: &pr}
+		if n == "nil" {
+			ep.Name = nil
+		}
+		if p == 0 {
+			ep.Port = nil
+		}
+		s.Ports = append(s.Ports, ep)
 	}
 	for _, e := range wire.DecList(f[6]) {
 		p := strings.Split(e, "/")
@@ -428,7 +452,10 @@ func mkSlice(f []string) *discoveryv1.EndpointSlice {
 		}
 		ep := discoveryv1.Endpoint{Addresses: strings.Split(p[0], "+")}
 		ep.Conditions = discoveryv1.EndpointConditions{Ready: cond(p[1][0]), Serving: cond(p[2][0]), Terminating: cond(p[3][0])}
-		if p[4] != "-" {
+		if strings.HasPrefix(p[4], "!") {
+			tns, tn, _ := strings.Cut(p[4][1:], ":")
+			ep.TargetRef = &corev1.ObjectReference{Kind: "Node", Namespace: tns, Name: tn}
+		} else if p[4] != "-" {
 			tns, tn, _ := strings.Cut(p[4], ":")
 			ep.TargetRef = &corev1.ObjectReference{Kind: "Pod", Namespace: tns, Name: tn}
 		}
@@ -443,6 +470,27 @@ var epoch = metav1.NewTime(time.Unix(1700000000, 0))
 func mkPod(f []string) *corev1.Pod {
 	ns, name, ip := wire.Dec(f[1]), wire.Dec(f[2]), wire.Dec(f[3])
 	p := &corev1.Pod{ObjectMeta: metav1.ObjectMeta{Name: name, Namespace: ns, Labels: kv(f[7])}}
+	// pseudo labels carry pod fields that are not labels: @owner (controller ownerReference), @host / @sub (spec.hostname /
+	// spec.subdomain)
+	for k, v := range p.Labels {
+		if !strings.HasPrefix(k, "@") {
+			continue
+		}
+		delete(p.Labels, k)
+		switch k {
+		case "@owner":
+			yes := true
+			p.GenerateName = name + "-"
+			p.OwnerReferences = []metav1.OwnerReference{{APIVersion: "apps/v1", Kind: "StatefulSet", Name: v, Controller: &yes}}
+		case "@host":
+			p.Spec.Hostname = v
+		case "@sub":
+			p.Spec.Subdomain = v
+		}
+	}
+	if len(p.Labels) == 0 {
+		p.Labels = nil
+	}
 	p.Spec.ServiceAccountName = wire.Dec(f[8])
 	p.Spec.NodeName = wire.Dec(f[9])
 	switch f[4] {
@@ -475,12 +523,25 @@ func mkPod(f []string) *corev1.Pod {
 // node <name> <region> <zone>
 func mkNode(f []string) *corev1.Node {
 	n := &corev1.Node{ObjectMeta: metav1.ObjectMeta{Name: wire.Dec(f[1])}}
+	// region "L:<r>" / zone "L:<z>": the legacy failure-domain labels; zone "<z>/<subzone>": topology.istio.io/subzone
 	l := map[string]string{}
 	if r := wire.Dec(f[2]); r != "" {
-		l[corev1.LabelTopologyRegion] = r
+		if strings.HasPrefix(r, "L:") {
+			l[corev1.LabelFailureDomainBetaRegion] = r[2:]
+		} else {
+			l[corev1.LabelTopologyRegion] = r
+		}
 	}
 	if z := wire.Dec(f[3]); z != "" {
-		l[corev1.LabelTopologyZone] = z
+		z, sub, _ := strings.Cut(z, "/")
+		if sub != "" {
+			l["topology.istio.io/subzone"] = sub
+		}
+		if strings.HasPrefix(z, "L:") {
+			l[corev1.LabelFailureDomainBetaZone] = z[2:]
+		} else if z != "" {
+			l[corev1.LabelTopologyZone] = z
+		}
 	}
 	if len(l) > 0 {
 		n.Labels = l
@@ -659,7 +720,8 @@ func showEndpoint(e *model.IstioEndpoint) string {
 	}
 	return strings.Join(e.Addresses, "+") + ":" + strconv.Itoa(int(e.EndpointPort)) + "|" + e.ServicePortName + "|" +
 		healthTok(e.HealthStatus) + "|" + wire.B(e.SendUnhealthyEndpoints) + "|" + e.ServiceAccount + "|" + e.Namespace + "|" +
-		e.NodeName + "|" + e.TLSMode + "|" + e.Locality.Label + "|" + e.WorkloadName + "|" + showMap(e.Labels)
+		e.NodeName + "|" + e.TLSMode + "|" + e.Locality.Label + "|" + e.WorkloadName + "|" + string(e.Network) + "|" + e.HostName + "|" +
+		e.SubDomain + "|" + showMap(e.Labels)
 }
 
 func showEndpoints(eps []*model.IstioEndpoint) string {
@@ -698,7 +760,17 @@ func showService(s *model.Service) string {
 	}
 	return string(s.Hostname) + "{" + resTok(s.Resolution) + ";" + s.DefaultAddress + ";" + strings.Join(ports, ",") + ";" +
 		showMap(s.Attributes.LabelSelectors) + ";" + s.Attributes.ExternalName + ";" + s.Attributes.Type + ";" +
-		wire.B(s.MeshExternal) + ";" + showMap(s.Attributes.Labels) + ";" + td + "}"
+		wire.B(s.MeshExternal) + ";" + showMap(s.Attributes.Labels) + ";" + td + ";" + showExportTo(s) + ";" +
+		strings.Join(s.ServiceAccounts, "+") + "}"
+}
+
+func showExportTo(s *model.Service) string {
+	l := make([]string, 0, len(s.Attributes.ExportTo))
+	for v := range s.Attributes.ExportTo {
+		l = append(l, string(v))
+	}
+	sort.Strings(l)
+	return strings.Join(l, "+")
 }
 
 type snapshot struct {
@@ -1003,6 +1075,20 @@ var coldOrders = [][]string{
 	{"pod", "slice", "node", "svc", "ns"},
 }
 
+func permutations(l []string) [][]string {
+	if len(l) <= 1 {
+		return [][]string{append([]string(nil), l...)}
+	}
+	var out [][]string
+	for i := range l {
+		rest := append(append([]string(nil), l[:i]...), l[i+1:]...)
+		for _, p := range permutations(rest) {
+			out = append(out, append([]string{l[i]}, p...))
+		}
+	}
+	return out
+}
+
 func oracleCase(cs [][]string) []string {
 	c := newCase()
 	defer c.close()
@@ -1022,6 +1108,14 @@ func oracleCase(cs [][]string) []string {
 		}
 	}
 	if v := c.literalColdView(); v != ordered {
+		// the cross-kind order of the initial Add events of a literal cold start is not fixed: find a kind order of the
+		// held cold start that ends in the same view, so that the divergence can be classified and replayed
+		for _, o := range permutations(kinds) {
+			if c.coldView(o) == v {
+				return []string{"FAIL order-vs-cold cold-order=" + strings.Join(o, ",") + " ordered=" + wire.Enc(ordered) + " cold=" + wire.Enc(v) +
+					" literal=1"}
+			}
+		}
 		return []string{"FAIL order-vs-literal-cold ordered=" + wire.Enc(ordered) + " cold=" + wire.Enc(v)}
 	}
 	// no entry may stay parked in needResync for an address whose pod is ready in the final objects
